@@ -17,6 +17,7 @@ type mnode struct {
 	kind  int
 	named []*ref // parallel to kinds[kind].named; nil = not wired
 	arr   []ref
+	arr2  []ref // kSArr2 only: the second array input "More"
 
 	// logical clock of the last SetInput on this node: soft = any call,
 	// hard = a call that changed the wiring as data
@@ -94,6 +95,12 @@ func (m *model) eval(i int) val {
 		return val{s: fSArr(i, arrS())}
 	case kSMix:
 		return val{s: fSMix(i, arrS(), nv(0).s, nv(1).s)}
+	case kSArr2:
+		more := make([]string, 0, len(n.arr2))
+		for j := range n.arr2 {
+			more = append(more, m.evalRef(&n.arr2[j], tS).s)
+		}
+		return val{s: fSArr2(i, arrS(), more)}
 	case kI2:
 		return val{i: fI2(i, nv(0).i, nv(1).i)}
 	case kIArr:
@@ -267,6 +274,7 @@ func (m *model) refs(i int) []ref {
 		}
 	}
 	out = append(out, n.arr...)
+	out = append(out, n.arr2...)
 	return out
 }
 
@@ -393,6 +401,16 @@ func (m *model) describe() string {
 				sb.WriteString(fmtRef(r))
 			}
 			sb.WriteString("]")
+			if len(n.arr2) > 0 {
+				sb.WriteString(" More[")
+				for j, r := range n.arr2 {
+					if j > 0 {
+						sb.WriteString(",")
+					}
+					sb.WriteString(fmtRef(r))
+				}
+				sb.WriteString("]")
+			}
 		}
 		sb.WriteString(") ")
 	}
